@@ -108,19 +108,22 @@ def engineCase (inp impl : String) : CaseOut :=
     let (_, out, tags) := ops.foldl stepOp ({}, [], [])
     let model := String.intercalate ";" out
     let implL := impl.splitOn ";"
-    let firstBad := (List.range (max out.length implL.length)).find? fun i => out[i]? ≠ implL[i]?
-    let spec := match firstBad with
-      | none => "ok"
-      | some i =>
-        let op := ops.getD i "?"
-        let got := implL.getD i "?"
-        let prop :=
-          if (got.splitOn "OVERFLOW").length > 1 then "C09 unbounded event feedback (a finite number of sends must produce a finite number of events)"
-          else if (got.splitOn "PANIC").length > 1 then "C09 sending panicked"
-          else if op.startsWith "poi" then "C07+C09 Stop/Poison of an unknown (or foreign) PID: one dead letter and a context that is done at once"
-          else if op.startsWith "snd" then "C09 undeliverable message not surfaced exactly once to every reachable subscriber"
-          else "C12 event not delivered exactly once to exactly the current subscribers"
-        s!"FAIL:{prop}: op#{i} {op}: implementation [{got}] expected [{out.getD i "?"}]"
+    let bads := (List.range (max out.length implL.length)).filter fun i => out[i]? ≠ implL[i]?
+    -- every differing operation is judged (one root cause can break several properties: an event stream that
+    -- crashed on a send has also lost its subscribers, which the next `ev` shows); the first one is spelled out
+    let propOf (i : Nat) : String × String :=
+      let op := ops.getD i "?"
+      let got := implL.getD i "?"
+      if (got.splitOn "OVERFLOW").length > 1 then ("C09", "unbounded event feedback (a finite number of sends must produce a finite number of events)")
+      else if (got.splitOn "PANIC").length > 1 then ("C09", "sending panicked")
+      else if op.startsWith "poi" then ("C07+C09", "Stop/Poison of an unknown (or foreign) PID: one dead letter and a context that is done at once")
+      else if op.startsWith "snd" then ("C09", "undeliverable message not surfaced exactly once to every reachable subscriber")
+      else ("C12", "event not delivered exactly once to exactly the current subscribers")
+    let spec := match bads with
+      | [] => "ok"
+      | i :: _ =>
+        let labels := (bads.flatMap fun j => (propOf j).1.splitOn "+").eraseDups
+        s!"FAIL:{String.intercalate "+" labels} {(propOf i).2}: op#{i} {ops.getD i "?"}: implementation [{implL.getD i "?"}] expected [{out.getD i "?"}]"
     { model := model, spec := spec, tags := tags.eraseDups, nontrivial := tags.contains "event" || tags.contains "send.deadletter" }
 
 end Driver
